@@ -63,6 +63,21 @@ RESIDUES = 20
 CTYPES = [20, 21, 22, 23, 23, 23, 24, 0, 255]
 
 
+_SEEN = {}
+
+
+def viol(ctx, key, wit, msg):
+    """at most 3 witnesses per distinct key and shard (a shard result keeps
+    only its first 200 violations; later distinct keys must not be lost)"""
+    k = repr(sorted(key.items()))
+    n = _SEEN.get(k, 0)
+    _SEEN[k] = n + 1
+    if n < 3:
+        ctx.violation(key, wit, msg)
+    else:
+        ctx.count("violations_suppressed_duplicates")
+
+
 # --------------------------------------------------------------------------
 # specification (independent: hashlib only)
 # --------------------------------------------------------------------------
@@ -157,7 +172,7 @@ def judge(ctx, st, body, kind, expect_kind=None):
                                        block)
     except Exception as e:   # noqa
         ctx.ev()
-        ctx.violation({"clause": "func_exception", "exc": type(e).__name__,
+        viol(ctx, {"clause": "func_exception", "exc": type(e).__name__,
                        "fam": fam, "body": kind, "region": reg},
                       wit(st, body, want, None),
                       "ct_check_cbc_mac_and_pad raised %r" % (e,))
@@ -171,14 +186,14 @@ def judge(ctx, st, body, kind, expect_kind=None):
     if expect_kind is not None and want != expect_kind:
         ctx.inconc("harness: specification judged a %s body %r" % (kind, want))
     if got is not True and got is not False:
-        ctx.violation({"clause": "func_not_boolean", "fam": fam,
+        viol(ctx, {"clause": "func_not_boolean", "fam": fam,
                        "body": kind}, wit(st, body, want, got),
                       "result is %r" % (got,))
         return got
     ctx.count("spec_accept" if want else "spec_reject")
     ctx.count("lib_accept" if got else "lib_reject")
     if got != want:
-        ctx.violation({"clause": "func_false_accept" if got else
+        viol(ctx, {"clause": "func_false_accept" if got else
                        "func_false_reject", "fam": fam, "body": kind,
                        "region": reg},
                       wit(st, body, want, got),
@@ -372,10 +387,13 @@ def func_case(ctx, P):
                         b = bytearray(rng.randbytes(n - 1) + bytes([p]))
                         judge(ctx, st, b, "arbitrary")
                 else:
-                    b = bytearray(rng.randbytes(n - 1) + bytes([p]))
-                    judge(ctx, st, b, "arbitrary", False)
+                    over = ssl3 and p > block and n >= p + 1 + maclen
+                    if ctx.quick or (over and rot % 4 == 0) or \
+                            (not over and rot % 2 == 0):
+                        b = bytearray(rng.randbytes(n - 1) + bytes([p]))
+                        judge(ctx, st, b, "arbitrary", False)
                     ctx.count("neg:%s/%s" % (macname, VNAME[ver]))
-                    if ssl3 and p > block and n >= p + 1 + maclen:
+                    if over:
                         # everything right except the SSLv3 bound
                         body = wellformed(rng, st, n, p)
                         judge(ctx, st, body, "ssl3_pad_over_block", False)
@@ -589,7 +607,7 @@ def rec_case(ctx, P):
             try:
                 hdr, got = recv_one(rl, sock, wire)
             except Exception as e:   # noqa
-                ctx.violation({"clause": "record_false_reject", "fam": fam,
+                viol(ctx, {"clause": "record_false_reject", "fam": fam,
                                "mode": mode, "exc": type(e).__name__},
                               wit_r(seq=seq_used, ctype=ctype, pad=p,
                                     content=content, wire=wire),
@@ -598,7 +616,7 @@ def rec_case(ctx, P):
                 stream_ok = False
             else:
                 if got != content or hdr.type != ctype:
-                    ctx.violation({"clause": "record_wrong_plaintext",
+                    viol(ctx, {"clause": "record_wrong_plaintext",
                                    "fam": fam, "mode": mode},
                                   wit_r(seq=seq_used, ctype=ctype, pad=p,
                                         content=content, wire=wire, got=got),
@@ -644,7 +662,7 @@ def rec_case(ctx, P):
             except TLSBadRecordMAC:
                 ctx.count("rec_negative_rejected")
             except Exception as e:   # noqa
-                ctx.violation({"clause": "record_reject_wrong_error",
+                viol(ctx, {"clause": "record_reject_wrong_error",
                                "fam": fam, "mode": mode, "corrupt": nk,
                                "exc": type(e).__name__},
                               wit_r(seq=seq_used, ctype=ctype, pad=p,
@@ -652,7 +670,7 @@ def rec_case(ctx, P):
                               "corrupted record raised %r, not "
                               "TLSBadRecordMAC" % (e,))
             else:
-                ctx.violation({"clause": "record_false_accept", "fam": fam,
+                viol(ctx, {"clause": "record_false_accept", "fam": fam,
                                "mode": mode, "corrupt": nk},
                               wit_r(seq=seq_used, ctype=ctype, pad=p,
                                     content=content, wire=wire, got=got),
@@ -716,14 +734,14 @@ def rec_case(ctx, P):
             except TLSBadRecordMAC:
                 ctx.count("rec_negative_rejected")
             except Exception as e:   # noqa
-                ctx.violation({"clause": "record_reject_wrong_error",
+                viol(ctx, {"clause": "record_reject_wrong_error",
                                "fam": fam, "mode": mode,
                                "corrupt": "clamp_overlap",
                                "exc": type(e).__name__},
                               wit_r(seq=seqn, ctype=ctype, pad=p, wire=wire),
                               "raised %r, not TLSBadRecordMAC" % (e,))
             else:
-                ctx.violation({"clause": "record_false_accept", "fam": fam,
+                viol(ctx, {"clause": "record_false_accept", "fam": fam,
                                "mode": mode, "corrupt": "clamp_overlap"},
                               wit_r(seq=seqn, ctype=ctype, pad=p, wire=wire,
                                     plain=plain, got=got),
@@ -746,7 +764,7 @@ def rec_case(ctx, P):
                 pass
         except Exception as e:   # noqa
             ctx.ev()
-            ctx.violation({"clause": "sender_exception", "fam": fam,
+            viol(ctx, {"clause": "sender_exception", "fam": fam,
                            "mode": mode, "exc": type(e).__name__},
                           wit_r(seq=seq, content=content),
                           "sendRecord raised %r" % (e,))
@@ -793,7 +811,7 @@ def rec_case(ctx, P):
                 if bad is None and ver == (3, 0) and p >= block:
                     bad = "SSLv3 padding longer than a block"
         if bad is not None:
-            ctx.violation({"clause": "sender_malformed", "fam": fam,
+            viol(ctx, {"clause": "sender_malformed", "fam": fam,
                            "mode": mode, "what": bad.split(" (")[0]},
                           wit_r(seq=seq, ctype=ctype, content=content,
                                 wire=wire),
